@@ -221,7 +221,18 @@ pub fn sites_from_backtrace(bt: &str) -> (Option<String>, Option<String>) {
     if frames.is_empty() {
         return (None, None);
     }
-    let oi = frames.iter().position(|(f, _)| !f.ends_with("/utils.rs")).unwrap_or(0);
+    // helpers (utils.rs) and compiler-generated code (a `#[derive(Clone)]` line, an enum variant
+    // outside any fn) are attributed to their caller
+    let is_helper = |f: &str, l: u32| -> bool {
+        if f.ends_with("/utils.rs") {
+            return true;
+        }
+        let site = render_site(f, l);
+        let mut it = site.splitn(3, "::");
+        let (_file, func, text) = (it.next(), it.next().unwrap_or(""), it.next().unwrap_or(""));
+        func == "?" || text.starts_with("#[derive")
+    };
+    let oi = frames.iter().position(|(f, l)| !is_helper(f, *l)).unwrap_or(0);
     let (of, ol) = frames[oi].clone();
     let client = frames[oi + 1..]
         .iter()
